@@ -113,7 +113,12 @@ def _forward(pvt, p_i, tau, days, pf, nodes):
     with warnings.catch_warnings(), np.errstate(all="ignore"):
         warnings.simplefilter("ignore")
         fl = FlowProperties(pvt, p_i)
-        res = SinglePhaseReservoir(nodes, p_i, p_i, fl)
+        # the public forward model FOR THIS HISTORY: a reservoir whose own drawdown setting is the history's
+        # first value (the supplied schedule governs every row, so the setting must not matter - an oracle
+        # that copied the objective's own construction, drawdown = p_i, would be blind to a setting that leaks)
+        pf = np.asarray(pf, dtype=float)
+        first = float(pf[0]) if np.isfinite(pf[0]) else float(p_i)
+        res = SinglePhaseReservoir(nodes, first, p_i, fl)
         res.simulate(days / tau, pf)
         return np.array(res.recovery_factor(), dtype=float, copy=True)
 
